@@ -31,6 +31,9 @@ func runC08(c *Ctx) {
 	c.rule("goroutine-exit", "every blocking channel operation of the monitor has a <-ctx.Done() arm that returns; every blocking operation of the callback loop includes a receive on a shutdown channel that the monitor closes in a deferred call at its entry", 3)
 	c.rule("shutdown-checked-first", "a caller-goroutine function that blocks on a send to the callback queue first polls the monitor's shutdown channel without blocking and fails when it is closed (a select between a closed channel and a send on a buffered queue picks at random, so a call issued after shutdown would report success half the time)", 1)
 	c.rule("unregister-handshake", "(shared with C06) the unregister arm rebuilds the handle list without mutating it in place and closes the done channel on every path (a second unregister of the same handle must be answered too), and the API returns true only after that acknowledgement", 4)
+	c.rule("monitor-ops-bounded", "in the functions the monitor goroutine calls, every channel operation is non-blocking except the single answer on a roomy reply channel", 2)
+	c.rule("asserts-guarded", "on the background goroutines' call paths every unchecked type assertion asserts the compose result under a nil compose error (at every call site for a helper's parameter)", 2)
+	c.rule("exit-on-fresh-scan", "the monitor leaves its loop on a Done event only on a scan of the slots' watching bits made for that event, never on state carried across events", 1)
 	c.rule("cbloop-drains", "the callback loop's exit is the drained-queue exit (non-blocking receive found nothing), so it neither leaks nor drops queued unregister acknowledgements while alive", 1)
 	c.rule("goroutines-lock-free", "functions reachable from the monitor and callback roots acquire no mutex and invoke no Source/Watcher/Decoder method", 2)
 	c.rule("lock-pairing", "every Mutex.Lock in the repository is immediately followed by a deferred Unlock of the same mutex", 4)
@@ -232,6 +235,9 @@ func runC08(c *Ctx) {
 	} else {
 		c.bad("unregister-handshake", relName(k.cbLoop), k.cbLoop.Pos(), "no unregister arm in the callback loop")
 	}
+	k.checkMonitorOpsBounded("monitor-ops-bounded")
+	k.checkAssertsGuarded("asserts-guarded")
+	k.checkExitOnFreshScan("exit-on-fresh-scan")
 }
 
 // apiReaches: f is reachable (synchronously) from an exported function/method.
